@@ -33,7 +33,7 @@ Definition opt_ok {A} (f : A -> bool) (x : option A) : bool :=
   match x with Some v => f v | None => false end.
 
 Definition serde_ok_segment (s : segment_serial) : bool :=
-  no_unknown (ss_unknown s) && is_some (ss_name s) &&
+  no_unknown (ss_unknown s) && is_some (plain_str (ss_name s)) &&
   opt_ok (forallb serde_ok_file) (ss_files s) &&
   an_ok serde_ok_gp (ss_gp_info s) && skeep_ok (ss_keep s) &&
   an_ok nodup_keys (ss_sections_start_alignment s) &&
@@ -47,16 +47,16 @@ Definition serde_ok_settings (s : settings_serial) : bool :=
   an_ok nodup_keys (sts_sections_subgroups s).
 
 Definition serde_ok_class (c : class_serial) : bool :=
-  no_unknown (vs_unknown c) && is_some (vs_name c) && skeep_ok (vs_keep c).
+  no_unknown (vs_unknown c) && is_some (plain_str (vs_name c)) && skeep_ok (vs_keep c).
 
 Definition serde_ok_assign (a : assign_serial) : bool :=
-  no_unknown (as_unknown a) && is_some (as_name a) && is_some (as_value a).
+  no_unknown (as_unknown a) && is_some (plain_str (as_name a)) && is_some (plain_str (as_value a)).
 
 Definition serde_ok_required (r : required_serial) : bool :=
-  no_unknown (rs_unknown r) && is_some (rs_name r).
+  no_unknown (rs_unknown r) && is_some (plain_str (rs_name r)).
 
 Definition serde_ok_assert (a : assert_serial) : bool :=
-  no_unknown (ats_unknown a) && is_some (ats_check a) && is_some (ats_error_message a).
+  no_unknown (ats_unknown a) && is_some (plain_str (ats_check a)) && is_some (plain_str (ats_error_message a)).
 
 Definition serde_ok (d : document_serial) : bool :=
   no_unknown (ds_unknown d) &&
@@ -68,6 +68,8 @@ Definition serde_ok (d : document_serial) : bool :=
   an_ok (forallb serde_ok_assert) (ds_asserts d).
 
 (* ---------- helpers ---------- *)
+
+Definition opt_str (o : option string) : string := match o with Some s => s | None => "" end.
 
 Definition keep_of_skeep (k : skeep) : keep :=
   match k with
@@ -257,7 +259,7 @@ Definition subgroup_cycle (g : list (string * list string)) : option string :=
 
 (* SegmentSerial::unserialize *)
 Definition parse_segment (st : settings) (s : segment_serial) : res segment :=
-  let name := match ss_name s with Some n => n | None => "" end in
+  let name := opt_str (plain_str (ss_name s)) in
   let sfiles := match ss_files s with Some l => l | None => [] end in
   do _ <- (if is_empty name then Err (EEmptyValue "name") else Ok tt);
   do _ <- (match sfiles with [] => Err (EEmptyValue "files") | _ => Ok tt end);
@@ -301,7 +303,7 @@ Definition parse_segment (st : settings) (s : segment_serial) : res segment :=
 
 (* VramClassSerial::unserialize *)
 Definition parse_class (c : class_serial) : res vram_class :=
-  let name := match vs_name c with Some n => n | None => "" end in
+  let name := opt_str (plain_str (vs_name c)) in
   do _ <- (if is_empty name then Err (EEmptyValue "name") else Ok tt);
   do fixed_vram <- get_non_null_no_default (vs_fixed_vram c) "fixed_vram";
   do fixed_symbol <- get_non_null_no_default (vs_fixed_symbol c) "fixed_symbol";
@@ -315,11 +317,9 @@ Definition parse_class (c : class_serial) : res vram_class :=
            else Ok tt);
   Ok (VramClass name fixed_vram fixed_symbol follows (keep_of_skeep (vs_keep c))).
 
-Definition opt_str (o : option string) : string := match o with Some s => s | None => "" end.
-
 Definition parse_assign (a : assign_serial) : res symbol_assignment :=
-  let name := opt_str (as_name a) in
-  let value := opt_str (as_value a) in
+  let name := opt_str (plain_str (as_name a)) in
+  let value := opt_str (plain_str (as_value a)) in
   do _ <- (if is_empty name then Err (EEmptyValue "name") else Ok tt);
   do _ <- (if is_empty value then Err (EEmptyValue "value") else Ok tt);
   do provide <- get_non_null (as_provide a) "provide" false;
@@ -328,14 +328,14 @@ Definition parse_assign (a : assign_serial) : res symbol_assignment :=
   Ok (SymbolAssignment name value provide hidden c).
 
 Definition parse_required (r : required_serial) : res required_symbol :=
-  let name := opt_str (rs_name r) in
+  let name := opt_str (plain_str (rs_name r)) in
   do _ <- (if is_empty name then Err (EEmptyValue "name") else Ok tt);
   do c <- parse_conds (rs_conds r);
   Ok (RequiredSymbol name c).
 
 Definition parse_assert (a : assert_serial) : res assert_entry :=
-  let check := opt_str (ats_check a) in
-  let msg := opt_str (ats_error_message a) in
+  let check := opt_str (plain_str (ats_check a)) in
+  let msg := opt_str (plain_str (ats_error_message a)) in
   do _ <- (if is_empty check then Err (EEmptyValue "check") else Ok tt);
   do _ <- (if is_empty msg then Err (EEmptyValue "error_message") else Ok tt);
   do c <- parse_conds (ats_conds a);
